@@ -6,10 +6,13 @@ Model (Model/Refs.lean): `nodeToRef` (model.py node_to_ref), `rangeStr` (CellRan
 `_format_*` helpers and `expand_ref`), `nameCache` (ScopedNameRefCache.calculate_named_ranges) over an
 abstract document; it mirrors the code as fixed by fixes/C09-*.patch (`pinned := true` = pinned code).
 Spec: `resolveTable` (what a printed qualification denotes given the document's own names),
-`encodeRect/encodeRows/encodeCols` (how a range with given ends and `$` marks is stored), C10's A1 parser.
+`encodeRect/encodeRows/encodeCols` (how a range with given ends and `$` marks is stored), C10's A1 parser;
+Model/RefsSpec.lean (`resolveLabel`, `resolveSpan`, `resolveQual`, text reader `resolveText`): the resolver
+spec for header labels, independent of the model of xrefs.py (lemmas: Lemmas/RefsSpec.lean, Lemmas/RefsText.lean).
 -/
 import NumbersModel.Lemmas.Refs
 import NumbersModel.Lemmas.RefsSpec
+import NumbersModel.Lemmas.RefsText
 namespace NumbersModel.Props.C09
 open NumbersModel NumbersModel.A1 NumbersModel.Refs NumbersModel.Formula NumbersModel.RefsSpec
 
@@ -144,16 +147,11 @@ Spec (Model/RefsSpec.lean, shares no code with the model of xrefs.py): `resolveL
 in the document; `T::lab` / `S::T::lab` = the header cell named `lab` of the unique table so named;
 `resolveSpan` likewise for `a:b`; `resolveQual` for the qualification of A1 / numeric texts.
 `WellFormedDoc` = `NamesOK` (sheet names distinct, table names distinct within a sheet, ids distinct) +
-one label per row / column.  `LabelForm doc host tgt abs t` says `t = [S::][T::]($)name` (quoted the way
-`expand_ref` quotes) and `resolveLabel` maps that qualification + name to `tgt`. -/
-
-/-- a stored whole-row reference to row `i` (0-based) of the table `tgt` (`none` = the host table itself),
-    held by a formula in host row `hostRow`: relative references store the offset -/
-def rowNode (hostRow : Int) (i : Nat) (abs : Bool) (tgt : Option Nat) : RefNode :=
-  { hasRow := true, row := if abs then (i : Int) else (i : Int) - hostRow, rowAbs := abs, toTable := tgt }
-
-def colNode (hostCol : Int) (i : Nat) (abs : Bool) (tgt : Option Nat) : RefNode :=
-  { hasCol := true, col := if abs then (i : Int) else (i : Int) - hostCol, colAbs := abs, toTable := tgt }
+one label per row / column.  `LabelForm doc host tgt abs allowed t` says `t = [S::][T::]($)name` (quoted the way
+`expand_ref` quotes), `resolveLabel` maps that qualification + name to `tgt`, the qualification is made of
+names in `allowed` (the target's sheet and table name) and `name` is the text of the header cell naming `tgt`.
+`printed_text_resolves_partial` then reads the whole text with `resolveText` (what the driver runs on the
+real library's output). -/
 
 /-- FULL (replaces `label_scope_sound_partial`).  For every well-formed document, every host cell, every
     target table and every row `i` / column `i` of it, absolute or relative: `str(node_to_ref(...))` succeeds,
@@ -166,43 +164,13 @@ theorem label_scope_sound {doc : Doc} (h : WellFormedDoc doc) {hs ts : Sheet} {h
     (row col : Int) (abs : Bool) (tgt : Option Nat) (hto : tgt.getD host.id = target.id) :
     (∀ i, i < target.nRows →
       ∃ t, refText false doc host.id row col (rowNode row i abs tgt) = .ok t ∧
-        (LabelForm doc host.id (target.id, .row, i) abs t ∨
-         PlainForm doc host.id target.id (rowsBody i i abs abs) t)) ∧
+        (LabelForm doc host.id (target.id, .row, i) abs [ts.name, target.name] t ∨
+         PlainForm doc host.id target.id (rowsBody i i abs abs) [ts.name, target.name] t)) ∧
     (∀ i, i < target.nCols →
       ∃ t, refText false doc host.id row col (colNode col i abs tgt) = .ok t ∧
-        (LabelForm doc host.id (target.id, .col, i) abs t ∨
-         PlainForm doc host.id target.id (dollar abs ++ letters i) t)) := by
-  constructor
-  · intro i hi
-    have hnode := nodeToRef_row_only host.id row col (rowNode row i abs tgt) rfl rfl rfl
-    have hr : (if (rowNode row i abs tgt).rowAbs then (rowNode row i abs tgt).row
-        else row + (rowNode row i abs tgt).row) = (i : Int) := by
-      cases abs <;> simp [rowNode]
-    rw [hr] at hnode
-    obtain ⟨t, ht, hform⟩ := formatRow_single h hhs hht hts htt
-      { rowStart := some (i : Int), rowStartAbs := abs, fromTable := host.id, toTable := tgt.getD host.id }
-      rfl hto i hi
-    refine ⟨t, ?_, hform⟩
-    unfold refText
-    rw [hnode]
-    simp only [bind, Except.bind]
-    rw [rangeStr_rows h hts htt _ hto rfl (i : Int) rfl]
-    exact ht
-  · intro i hi
-    have hnode := nodeToRef_col_only host.id row col (colNode col i abs tgt) rfl rfl rfl
-    have hr : (if (colNode col i abs tgt).colAbs then (colNode col i abs tgt).col
-        else col + (colNode col i abs tgt).col) = (i : Int) := by
-      cases abs <;> simp [colNode]
-    rw [hr] at hnode
-    obtain ⟨t, ht, hform⟩ := formatCol_single h hhs hht hts htt
-      { colStart := some (i : Int), colStartAbs := abs, fromTable := host.id, toTable := tgt.getD host.id }
-      rfl hto i hi
-    refine ⟨t, ?_, hform⟩
-    unfold refText
-    rw [hnode]
-    simp only [bind, Except.bind]
-    rw [rangeStr_cols h hts htt _ hto rfl (i : Int) rfl]
-    exact ht
+        (LabelForm doc host.id (target.id, .col, i) abs [ts.name, target.name] t ∨
+         PlainForm doc host.id target.id (dollar abs ++ letters i) [ts.name, target.name] t)) :=
+  refText_single_sound h hhs hht hts htt row col abs tgt hto
 
 /-- FULL, spans.  A stored row span `i..j` / column span `i..j` (any host cell, any mix of `$`, either storage
     layout) prints either as `[q]($)a:($)b` with header labels, which `resolveSpan` — "the table in which both
@@ -214,35 +182,59 @@ theorem span_scope_sound {doc : Doc} (h : WellFormedDoc doc) {hs ts : Sheet} {ho
     (row col : Int) (sa ea short : Bool) (tgt : Option Nat) (hto : tgt.getD host.id = target.id) :
     (∀ i j, i < target.nRows → j < target.nRows → i < 0x7FFFFFFF → j < 0x7FFFFFFF →
       ∃ t, refText false doc host.id row col (encodeRows row ⟨i, j, sa, ea⟩ short tgt) = .ok t ∧
-        (SpanForm doc host.id (target.id, .row, i) (target.id, .row, j) sa ea t ∨
-         PlainForm doc host.id target.id (rowsBody i j sa ea) t)) ∧
+        (SpanForm doc host.id (target.id, .row, i) (target.id, .row, j) sa ea [ts.name, target.name] t ∨
+         PlainForm doc host.id target.id (rowsBody i j sa ea) [ts.name, target.name] t)) ∧
     (∀ i j, i < target.nCols → j < target.nCols → i < 0x7FFF → j < 0x7FFF →
       ∃ t, refText false doc host.id row col (encodeCols col ⟨i, j, sa, ea⟩ short tgt) = .ok t ∧
-        (SpanForm doc host.id (target.id, .col, i) (target.id, .col, j) sa ea t ∨
-         PlainForm doc host.id target.id (colsBody i j sa ea) t)) := by
-  constructor
-  · intro i j hi hj hi' hj'
-    obtain ⟨t, ht, hform⟩ := formatRow_span h hhs hht hts htt
-      { rowStart := some (i : Int), rowEnd := some (j : Int), rowStartAbs := sa, rowEndAbs := ea,
-        fromTable := host.id, toTable := tgt.getD host.id } rfl hto i j hi hj
-    refine ⟨t, ?_, hform⟩
-    unfold refText
-    rw [nodeToRef_encodeRows host.id row col ⟨i, j, sa, ea⟩ short tgt (by simp [ROW_OPEN]; omega)
-      (by simp [ROW_OPEN]; omega)]
-    simp only [bind, Except.bind]
-    rw [rangeStr_rows h hts htt _ hto rfl (i : Int) rfl]
-    exact ht
-  · intro i j hi hj hi' hj'
-    obtain ⟨t, ht, hform⟩ := formatCol_span h hhs hht hts htt
-      { colStart := some (i : Int), colEnd := some (j : Int), colStartAbs := sa, colEndAbs := ea,
-        fromTable := host.id, toTable := tgt.getD host.id } rfl hto i j hi hj
-    refine ⟨t, ?_, hform⟩
-    unfold refText
-    rw [nodeToRef_encodeCols host.id row col ⟨i, j, sa, ea⟩ short tgt (by simp [COL_OPEN]; omega)
-      (by simp [COL_OPEN]; omega)]
-    simp only [bind, Except.bind]
-    rw [rangeStr_cols h hts htt _ hto rfl (i : Int) rfl]
-    exact ht
+        (SpanForm doc host.id (target.id, .col, i) (target.id, .col, j) sa ea [ts.name, target.name] t ∨
+         PlainForm doc host.id target.id (colsBody i j sa ea) [ts.name, target.name] t)) :=
+  refText_span_sound h hhs hht hts htt row col sa ea short tgt hto
+
+/-- PARTIAL only in its hygiene hypothesis.  Full statement: for every well-formed document the TEXT printed for
+    a stored whole-row / whole-column reference or span, read by the spec's text reader `resolveText` (split the
+    qualification at `::` outside quotes, unquote, strip `$`, recognise column letters / row numbers, then
+    `resolveLabel` / `resolveSpan` / `resolveQual`), denotes exactly the stored table, rows / columns and `$`
+    marks.  Proved for all documents satisfying `PlainNames doc` (sheet and table names without `:` and `'`;
+    header NAMES without `:` and `'` whose first character is not `$`, `A`–`Z` or a digit).  Excluded region
+    = `¬ PlainNames doc`: there the printed text is itself ambiguous as text (`$x` the label vs `$`+`x`; label
+    `B` vs column B; apostrophes: known finding C18 `apostrophe-in-name`), independent of the scope logic, which
+    `label_scope_sound` / `span_scope_sound` cover without this hypothesis.
+    A single numeric row prints as `3:3`, hence the two-ends alternative. -/
+theorem printed_text_resolves_partial {doc : Doc} (h : WellFormedDoc doc) (hp : PlainNames doc) {hs ts : Sheet}
+    {host target : Table} (hhs : hs ∈ doc) (hht : host ∈ hs.tables) (hts : ts ∈ doc) (htt : target ∈ ts.tables)
+    (row col : Int) (sa ea short : Bool) (tgt : Option Nat) (hto : tgt.getD host.id = target.id) :
+    (∀ i, i < target.nRows →
+      ∃ t, refText false doc host.id row col (rowNode row i sa tgt) = .ok t ∧
+        (resolveText doc host.id t = some (target.id, [.row i sa]) ∨
+         resolveText doc host.id t = some (target.id, [.row i sa, .row i sa]))) ∧
+    (∀ i, i < target.nCols →
+      ∃ t, refText false doc host.id row col (colNode col i sa tgt) = .ok t ∧
+        resolveText doc host.id t = some (target.id, [.col i sa])) ∧
+    (∀ i j, i < target.nRows → j < target.nRows → i < 0x7FFFFFFF → j < 0x7FFFFFFF →
+      ∃ t, refText false doc host.id row col (encodeRows row ⟨i, j, sa, ea⟩ short tgt) = .ok t ∧
+        resolveText doc host.id t = some (target.id, [.row i sa, .row j ea])) ∧
+    (∀ i j, i < target.nCols → j < target.nCols → i < 0x7FFF → j < 0x7FFF →
+      ∃ t, refText false doc host.id row col (encodeCols col ⟨i, j, sa, ea⟩ short tgt) = .ok t ∧
+        resolveText doc host.id t = some (target.id, [.col i sa, .col j ea])) :=
+  refText_text_resolves h hp hhs hht hts htt row col sa ea short tgt hto
+
+/-- cells and rectangles, text level (same hygiene hypothesis on sheet / table names only): the text of
+    `cell_ref_exact` / `range_ends_not_swapped`, read by `resolveText`, is the stored table and the stored cells
+    with their `$` marks — a second, independent reader beside C10's `xl_cell_to_rowcol` model. -/
+theorem cell_text_resolves_partial {doc : Doc} (h : WellFormedDoc doc) (hp : PlainNames doc) {hs ts : Sheet}
+    {host target : Table} (hhs : hs ∈ doc) (hht : host ∈ hs.tables) (hts : ts ∈ doc) (htt : target ∈ ts.tables)
+    (row col : Int) (tgt : Option Nat) (hto : tgt.getD host.id = target.id) :
+    (∀ (n : RefNode) (r' c' : Nat), n.hasTract = false → n.hasRow = true → n.hasCol = true → n.toTable = tgt →
+      (if n.rowAbs then n.row else row + n.row) = (r' : Int) →
+      (if n.colAbs then n.col else col + n.col) = (c' : Int) →
+      ∃ t, refText false doc host.id row col n = .ok t ∧
+        resolveText doc host.id t = some (target.id, [.cell r' c' n.rowAbs n.colAbs])) ∧
+    (∀ (rb re cb ce : Nat) (rbAbs reAbs cbAbs ceAbs short : Bool),
+      rb < 0x7FFFFFFF → re < 0x7FFFFFFF → cb < 0x7FFF → ce < 0x7FFF →
+      ∃ t, refText false doc host.id row col
+          (encodeRect row col ⟨rb, re, rbAbs, reAbs⟩ ⟨cb, ce, cbAbs, ceAbs⟩ short tgt) = .ok t ∧
+        resolveText doc host.id t = some (target.id, [.cell rb cb rbAbs cbAbs, .cell re ce reAbs ceAbs])) :=
+  refText_cell_text_resolves h hp hhs hht hts htt row col tgt hto
 
 /-- the numeric fallback bodies, read back with the library's own inverse parsers (C10): the row number is the
     decimal of `i + 1` (`int()` of it is `i + 1`), the column letters are `xl_col_to_name i` and
@@ -310,6 +302,28 @@ theorem cache_entry_facts {doc : Doc} (h : WellFormedDoc doc) {ts : Sheet} {targ
       (∀ (i : Nat) s, rangeAt tc.cols (i : Int) = .ok (some s) → ScopeFacts doc ts target .col i s) :=
   ⟨_, _, nameCache_ok h, cacheOf_ok h hts htt, fun _ _ he => scopeFacts_row h hts htt he,
     fun _ _ he => scopeFacts_col h hts htt he⟩
+
+/-- the model of `_calculate_name_scopes` keeps a name for row / column `i` of `target` exactly when, in the
+    spec's reading, that header cell NAMES the row / column (non-empty text shown by no other header cell of the
+    table): the label form of `label_scope_sound` is printed iff there is a usable name, the numeric fallback
+    otherwise. -/
+theorem name_kept_iff_spec_name {doc : Doc} (h : WellFormedDoc doc) {ts : Sheet} {target : Table} (hts : ts ∈ doc)
+    (htt : target ∈ ts.tables) :
+    ∃ cache tc, nameCache false doc = .ok cache ∧ cacheOf cache target.id = .ok tc ∧
+      (∀ (i : Nat) (x : Text), (∃ sc, rangeAt tc.rows (i : Int) = .ok (some ⟨x, sc⟩)) ↔
+        labelHits target x = [(target.id, .row, i)]) ∧
+      (∀ (i : Nat) (x : Text), (∃ sc, rangeAt tc.cols (i : Int) = .ok (some ⟨x, sc⟩)) ↔
+        labelHits target x = [(target.id, .col, i)]) := by
+  have hw := h.tables target (mem_allTables hts htt)
+  refine ⟨_, _, nameCache_ok h, cacheOf_ok h hts htt, fun i x => ⟨?_, ?_⟩, fun i x => ⟨?_, ?_⟩⟩
+  · rintro ⟨sc, he⟩
+    exact (scopeFacts_row h hts htt he).hit
+  · intro hh
+    exact ⟨_, rangeAt_map_of_kept (kept_of_labelHits hw hh)⟩
+  · rintro ⟨sc, he⟩
+    exact (scopeFacts_col h hts htt he).hit
+  · intro hh
+    exact ⟨_, rangeAt_map_of_kept (kept_of_labelHits hw hh)⟩
 
 /-! ### the pinned code violates the property (concrete witnesses, confirmed on the real code by
     harness/checks/c09.py; repaired by fixes/C09-*.patch) -/
@@ -408,6 +422,8 @@ example : WellFormedDoc scopeDoc where
     simp only [allTables, scopeDoc, List.flatMap_cons, List.flatMap_nil, List.append_nil, List.cons_append,
       List.nil_append, List.mem_cons, List.not_mem_nil, or_false] at ht
     rcases ht with rfl | rfl | rfl | rfl | rfl <;> exact ⟨by decide, by decide⟩
+
+example : PlainNames scopeDoc := plainNames_of_check _ (by decide +kernel) (by decide +kernel)
 
 -- DOCUMENT scope: bare, from another sheet
 example : refText false scopeDoc 4 1 1 (colNode 1 1 false (some 1)) = .ok "u1".toList ∧
